@@ -126,6 +126,20 @@ class Scenario:
         psnap = snapshot(p.data)
         out.fact("labels unchanged", bool(np.array_equal(y.data, ysnap)))
         out.pair("logits unchanged", snapshot(p.data), psnap)
+        import synapgrad.nn.functional as NF
+        for nm, fn, logp in (("NLLLoss", nn.NLLLoss(), True), ("NLLLoss(none)", nn.NLLLoss(reduction="none"), True),
+                             ("F.nll_loss", NF.nll_loss, True), ("F.cross_entropy", NF.cross_entropy, False),
+                             ("CrossEntropyLoss(sum)", nn.CrossEntropyLoss(reduction="sum"), False)):
+            for dt in (np.int32, np.int64):
+                yy = Tn(np.array([1, 0], dtype=dt))
+                before = (yy.data.copy(), yy.data.shape, yy.data.dtype, yy.data)
+                q = Tn(env.const([[0.5, -1.0], [0.25, 2.0]]), requires_grad=True)     # the fact does not depend on the scores
+                l_ = fn(NF.log_softmax(q, 1) if logp else q, yy)
+                (l_.sum() if l_.ndim else l_).backward()
+                out.fact("%s leaves its %s labels alone (values, shape, dtype, array)" % (nm, np.dtype(dt).name),
+                         yy.data is before[3] and yy.data.shape == before[1] and yy.data.dtype == before[2]
+                         and bool(np.array_equal(yy.data, before[0])),
+                         "labels now %s %s %s" % (yy.data.tolist(), yy.data.shape, yy.data.dtype))
         t = Tn(env.arr("t", (2, 2), lo=0, hi=1))
         tsnap = snapshot(t.data)
         l2 = nn.BCEWithLogitsLoss()(p, t) + nn.MSELoss()(p, t)
